@@ -187,10 +187,11 @@ Definition find_ring (faces : list (list Z)) (A : Z) : list Z :=
 Definition wf_mesh_b (nv : Z) (faces : list (list Z)) : bool :=
   wf_faces_b nv faces && forallb (fun A => ring_spec_b faces A (find_ring faces A)) (zrange nv).
 
-(* the edge list is exactly the set of sides of the faces, each once, smallest vertex first
-   (hypotheses edge_valid / edges_exact of the theorems, as a boolean on the implementation's own edge container) *)
+(* every row of the edge list is a side of a face written smallest vertex first, and every side has a row
+   (hypotheses edge_valid / edges_exact of the theorems, as a boolean on the implementation's own edge container).
+   A side may have several rows: mouette keeps an edge the caller declared twice twice (C02's known finding
+   edge-list/duplicate-declared); the theorems do not need the rows to be distinct. *)
 Definition edges_ok_b (faces : list (list Z)) (edges : list (Z * Z)) : bool :=
-  nodupZZ edges
-  && forallb (fun e => fst e <? snd e) edges
+  forallb (fun e => fst e <? snd e) edges
   && forallb (fun e => existsb (fun x => pair_eqb' (keyify2 (cv x) (ct x)) e) (all_corners faces)) edges
   && forallb (fun x => existsb (pair_eqb' (keyify2 (cv x) (ct x))) edges) (all_corners faces).
